@@ -64,4 +64,77 @@ func fbb.(*Message).SetSubject(m, str) ()
 func fbb.(*Message).AddTo(m, addr) ()
   props C09
   trusted
+
+# ---------------------------------------------------------------------------
+# C16: secure login
+#   response = last 8 decimal digits (zero padded) of the little-endian 32-bit
+#   integer of the first four MD5 digest bytes masked to 30 bits, the digest
+#   taken over challenge ++ password ++ salt.
+# ---------------------------------------------------------------------------
+ghost var gSum [16]byte
+ghost var gSprintf string
+
+# slr(challenge, password): the response string (definitional link used by sendHandshake)
+fn slr(String, String) String
+
+func fbb.secureLoginResponse(challenge, password) (r)
+  props C16
+  mode bv
+  call md5.Sum requires payload-length: len($0) == len(challenge) + len(password) + 64
+  call md5.Sum requires payload-challenge: forall i :: 0 <= i && i < len(challenge) ==> $0[i] == challenge[i]
+  call md5.Sum requires payload-password: forall i :: 0 <= i && i < len(password) ==> $0[len(challenge) + i] == password[i]
+  call md5.Sum requires payload-salt: forall i :: 0 <= i && i < 64 ==> $0[len(challenge) + len(password) + i] == winlinkSecureSalt[i]
+  call md5.Sum set gSum := $r0
+  call fmt.Sprintf requires format: $0 == "%08d" && len($1) == 1
+  call fmt.Sprintf requires value: unbox($1[0]) == (((u32(gSum[3]) & 63) << 24) | (u32(gSum[2]) << 16) | (u32(gSum[1]) << 8) | u32(gSum[0]))
+  call fmt.Sprintf requires range: unbox($1[0]) >= 0 && unbox($1[0]) < 1073741824
+  call fmt.Sprintf assume sprintf-08d: len($r0) >= 8
+  call fmt.Sprintf set gSprintf := $r0
+  ensures last8: len(r) == 8 && same(r, gSprintf[len(gSprintf)-8:len(gSprintf)])
+  ensures_trusted def: same(r, slr(challenge, password))
+  loop 0 invariant steps: (i == 2 && pr == (i32(sum[3]) & 63)) || (i == 1 && pr == (((i32(sum[3]) & 63) << 8) | i32(sum[2]))) || (i == 0 && pr == (((i32(sum[3]) & 63) << 16) | (i32(sum[2]) << 8) | i32(sum[1]))) || (i == -1 && pr == (((i32(sum[3]) & 63) << 24) | (i32(sum[2]) << 16) | (i32(sum[1]) << 8) | i32(sum[0])))
+  loop 0 invariant sum: same(sum, gSum)
+  loop 0 decreases i + 1
+
+# the password callback registered by the application: may do anything outside this library
+extern func field:fbb.Session.secureLoginHandleFunc(addr) (password, err)
+  modifies foreign
+
+ghost var gWroteAny bool
+ghost var gPRWritten bool
+ghost var gAbort error
+
+# sendHandshake (C16): the wire events, in order
+#   ;FW: then for address 0 the bare address, for address i>0 "addr|response" iff the callback
+#   returned a non-empty password (else the bare address); SID; ";PR: response" iff challenged;
+#   trailer.  Every formatted argument is pinned, so the password itself cannot reach the wire.
+func fbb.(*Session).sendHandshake(s, writer, secureChallenge) (err)
+  props C16 C05
+  requires fw: len(s.localFW) >= 1
+  call fmt.Fprintf requires handler-first: !(secureChallenge != "" && s.secureLoginHandleFunc == nil)
+  call fmt.Fprintf set gWroteAny := true
+  call fmt.Fprintf#0 requires fw-prefix: $1 == ";FW:" && len($2) == 0
+  call fmt.Fprintf#1 requires aux-hash: $1 == " %s|%s" && len($2) == 2 && secureChallenge != "" && i > 0 && len(password) > 0 && same(unbox($2[0]), addr.Addr) && same(unbox($2[1]), slr(secureChallenge, password))
+  call fmt.Fprintf#2 requires bare: $1 == " %s" && len($2) == 1 && same(unbox($2[0]), addr.Addr)
+  call fmt.Fprintf#3 requires fw-end: $1 == "\r" && len($2) == 0
+  call fmt.Fprintf#4 requires trailer: $1 == "; %s DE %s (%s)" && len($2) == 3 && same(unbox($2[0]), s.targetcall) && same(unbox($2[1]), s.mycall) && same(unbox($2[2]), s.locator)
+  call fmt.Fprintf#5 requires master-prompt: $1 == ">\r" && s.master
+  call fmt.Fprintf#6 requires slave-end: $1 == "\r" && !s.master
+  call fbb.writeSID requires sid: same($1, s.ua.Name) && same($2, s.ua.Version)
+  call fbb.writeSecureLoginResponse requires challenged: secureChallenge != ""
+  call fbb.writeSecureLoginResponse requires response: same($1, slr(secureChallenge, password))
+  call fbb.writeSecureLoginResponse set gPRWritten := true
+  call field:fbb.Session.secureLoginHandleFunc#1 requires first-address: same($0.Addr, s.localFW[0].Addr) && same($0.Proto, s.localFW[0].Proto)
+  call field:fbb.Session.secureLoginHandleFunc#1 set gAbort := $r1
+  ensures no-handler: secureChallenge != "" && s.secureLoginHandleFunc == nil ==> err != nil && !gWroteAny
+  ensures pr-iff: err == nil ==> (gPRWritten <==> secureChallenge != "")
+  ensures callback-error: gAbort != nil ==> err == gAbort && !gPRWritten
+
+func fbb.writeSecureLoginResponse(w, response) (err)
+  props C16
+  call fmt.Fprintf requires format: $1 == ";PR: %s\r" && len($2) == 1 && same(unbox($2[0]), response)
+
+func fbb.writeSID(w, appName, appVersion) (err)
+  props C05
+  call fmt.Fprintf requires format: $1 == "[%s-%s-%s]\r" && len($2) == 3 && same(unbox($2[0]), appName) && same(unbox($2[1]), appVersion)
 @*/
